@@ -37,6 +37,9 @@ pub struct NodeExec {
 /// own drivers keep acknowledging, but litep2p never reads, negotiates or answers)
 pub struct Ice {
     frozen: AtomicBool,
+    /// only the protocol event loops (the first tasks litep2p spawns) are held: connection tasks and the
+    /// manager keep running, so network outcomes pile up ready for the protocol's next poll
+    frozen_proto: AtomicBool,
     parked: Mutex<Vec<std::task::Waker>>,
 }
 
@@ -50,8 +53,17 @@ impl NodeExec {
             dead: AtomicBool::new(false),
             log,
             node,
-            ice: Arc::new(Ice { frozen: AtomicBool::new(false), parked: Mutex::new(Vec::new()) }),
+            ice: Arc::new(Ice { frozen: AtomicBool::new(false), frozen_proto: AtomicBool::new(false), parked: Mutex::new(Vec::new()) }),
         })
+    }
+
+    pub fn freeze_proto(&self, on: bool) {
+        self.ice.frozen_proto.store(on, Ordering::SeqCst);
+        if !on {
+            for w in self.ice.parked.lock().unwrap().drain(..) {
+                w.wake();
+            }
+        }
     }
 
     pub fn freeze(&self, on: bool) {
@@ -78,6 +90,9 @@ impl NodeExec {
             node: self.node,
             what,
             ice: self.ice.clone(),
+            // Litep2p::new starts the protocol event loops before anything else; the harness configures exactly
+            // one protocol (request-response) per node
+            proto: id == 0 && what == "litep2p",
         };
         let h = tokio::spawn(w);
         let mut g = self.handles.lock().unwrap();
@@ -115,15 +130,17 @@ pub struct Perturb {
     node: usize,
     what: &'static str,
     ice: Arc<Ice>,
+    proto: bool,
 }
 
 impl Future for Perturb {
     type Output = ();
     fn poll(mut self: Pin<&mut Self>, cx: &mut Context<'_>) -> Poll<()> {
         let this = &mut *self;
-        if this.ice.frozen.load(Ordering::SeqCst) {
+        let held = |ice: &Ice, proto: bool| ice.frozen.load(Ordering::SeqCst) || (proto && ice.frozen_proto.load(Ordering::SeqCst));
+        if held(&this.ice, this.proto) {
             let mut g = this.ice.parked.lock().unwrap();
-            if this.ice.frozen.load(Ordering::SeqCst) {
+            if held(&this.ice, this.proto) {
                 g.push(cx.waker().clone());
                 return Poll::Pending;
             }
